@@ -555,3 +555,31 @@ Fixpoint rows_ok (tbl : ktable) (tl : ktable) (j : nat) : bool :=
 
 Definition table_rt_ok (tbl : ktable) : bool :=
   table_ok tbl && idx_pos_ok tbl 0 && rows_ok tbl tbl 0.
+
+(* ---------------------------------------------------------------- writer side condition
+   table_ww_ok: from every position at which a level of a key starts (0, or right after "::" / "[]")
+   the writer's walk over the key reaches a leaf through well-formed separators. Implies that
+   static_map_write_bencode_c_values never raises internal_error and never leaves its 8-entry stack,
+   whatever the entries hold (static_map_write_total). *)
+Definition wlevel (k : bytes) (kb : N) : bool :=
+  (2 <=? kb) &&
+  (((nth (N.to_nat (kb - 2)) k 0 =? ch_colon) && (nth (N.to_nat (kb - 1)) k 0 =? ch_colon)) ||
+   ((nth (N.to_nat (kb - 2)) k 0 =? ch_lbr) && (nth (N.to_nat (kb - 1)) k 0 =? ch_rbr))).
+
+Fixpoint wwalk (fuel : nat) (k : bytes) (kb : N) : bool :=
+  match fuel with
+  | O => false
+  | S f =>
+      let ke := find_key_end (N.to_nat max_key + 1) k kb in
+      let c0 := nth (N.to_nat ke) k 0 in
+      let c1 := nth (N.to_nat (ke + 1)) k 0 in
+      (ke <? max_key) &&
+      (if ((c0 =? ch_colon) && (c1 =? ch_colon)) || ((c0 =? ch_lbr) && (c1 =? ch_rbr)) then wwalk f k (ke + 2)
+       else (c0 =? 0) || (c0 =? ch_star))
+  end.
+
+Definition key_ww_ok (k : bytes) : bool :=
+  forallb (fun kb => negb ((kb =? 0) || wlevel k kb) || wwalk walk_fuel k kb) (map N.of_nat (seq 0 16)).
+
+Definition table_ww_ok (tbl : ktable) : bool :=
+  table_ok tbl && forallb (fun ik => key_ww_ok (snd ik)) tbl.
